@@ -197,6 +197,24 @@ func checkExpr(c exprCase) (fw.Outcome, *fw.Violation) {
 		add("any"+op, fmt.Sprintf("%s %s ANY (%s, %s)", a, op, b, cc))
 		add("all"+op, fmt.Sprintf("%s %s ALL (%s, %s)", a, op, b, cc))
 	}
+	// the same through single-field subqueries, incl. the documented results over an empty result set
+	sub2 := fmt.Sprintf("(SELECT %s UNION ALL SELECT %s)", b, cc)
+	sub1 := fmt.Sprintf("(SELECT %s)", b)
+	empty := "(SELECT 1 FROM DUAL WHERE 1 = 0)"
+	add("in_sub", fmt.Sprintf("%s IN %s", a, sub2))
+	add("notin_sub", fmt.Sprintf("%s NOT IN %s", a, sub2))
+	add("in_empty", fmt.Sprintf("%s IN %s", a, empty))
+	add("notin_empty", fmt.Sprintf("%s NOT IN %s", a, empty))
+	add("exists_empty", fmt.Sprintf("EXISTS %s", empty))
+	add("exists_one", fmt.Sprintf("EXISTS %s", sub1))
+	for _, op := range relOps {
+		add("anysub"+op, fmt.Sprintf("%s %s ANY %s", a, op, sub2))
+		add("allsub"+op, fmt.Sprintf("%s %s ALL %s", a, op, sub2))
+		add("anyone"+op, fmt.Sprintf("%s %s ANY %s", a, op, sub1))
+		add("allone"+op, fmt.Sprintf("%s %s ALL %s", a, op, sub1))
+		add("anyempty"+op, fmt.Sprintf("%s %s ANY %s", a, op, empty))
+		add("allempty"+op, fmt.Sprintf("%s %s ALL %s", a, op, empty))
+	}
 	add("isnull", fmt.Sprintf("%s IS NULL", a))
 	add("isnotnull", fmt.Sprintf("%s IS NOT NULL", a))
 	for _, tn := range []string{"TRUE", "FALSE", "UNKNOWN"} {
@@ -297,6 +315,38 @@ func checkExpr(c exprCase) (fw.Outcome, *fw.Violation) {
 		}
 		if want := ref.And(gt("ab"+op), gt("ac"+op)); gt("all"+op) != want {
 			return o, fail("all", "all"+op, ref.TernName(want))
+		}
+	}
+	if want := ref.Or(gt("ab="), gt("ac=")); gt("in_sub") != want {
+		return o, fail("in_subquery", "in_sub", ref.TernName(want))
+	}
+	if want := ref.And(gt("ab<>"), gt("ac<>")); gt("notin_sub") != want {
+		return o, fail("not_in_subquery", "notin_sub", ref.TernName(want))
+	}
+	if gt("in_empty") != ref.F {
+		return o, fail("in_empty_set", "in_empty", "FALSE (no record: documented)")
+	}
+	if gt("notin_empty") != ref.T {
+		return o, fail("not_in_empty_set", "notin_empty", "TRUE (no record: documented)")
+	}
+	if gt("exists_empty") != ref.F || gt("exists_one") != ref.T {
+		return o, fail("exists", "exists_empty", "FALSE / TRUE")
+	}
+	for _, op := range relOps {
+		if want := ref.Or(gt("ab"+op), gt("ac"+op)); gt("anysub"+op) != want {
+			return o, fail("any_subquery", "anysub"+op, ref.TernName(want))
+		}
+		if want := ref.And(gt("ab"+op), gt("ac"+op)); gt("allsub"+op) != want {
+			return o, fail("all_subquery", "allsub"+op, ref.TernName(want))
+		}
+		if want := gt("ab" + op); gt("anyone"+op) != want || gt("allone"+op) != want {
+			return o, fail("any_all_single_record", "anyone"+op, ref.TernName(want))
+		}
+		if gt("anyempty"+op) != ref.F {
+			return o, fail("any_empty_set", "anyempty"+op, "FALSE (no record: documented)")
+		}
+		if gt("allempty"+op) != ref.T {
+			return o, fail("all_empty_set", "allempty"+op, "TRUE (no record: documented)")
 		}
 	}
 	// 3. IS
